@@ -406,6 +406,10 @@ type c12Req struct {
 	chunked   bool // send the body with chunked transfer encoding (no Content-Length)
 	// reference: names of the violated preconditions
 	violated []string
+	// lenient: the statement leaves open whether this request meets the precondition (an Accept that
+	// admits the one response type a JSON-response endpoint uses for calls, but not the other):
+	// refused with a 4xx and not dispatched, or served - both are fine
+	lenient bool
 }
 
 type c12Dim struct {
@@ -439,7 +443,7 @@ const c12BodyLimit = 400
 
 func c12Dims() []c12Dim {
 	all := func(string) bool { return true }
-	modern := func(k string) bool { return k == "stateless-modern" }
+	modern := func(k string) bool { return k == "stateless-modern" || k == "stateless-modern-json" }
 	modernAny := func(k string) bool { return strings.HasPrefix(k, "stateless-modern") } // calls and notifications
 	streamable := func(k string) bool { return k != "sse" }
 	hdr := func(k, v, violates string) func(*c12Req) string {
@@ -470,7 +474,14 @@ func c12Dims() []c12Dim {
 			hdr("Accept", "*/*", ""),
 			hdr("Accept", "application/*, text/*", ""),
 			hdr("Accept", "application/json;q=0.5, text/event-stream;q=0.1", ""),
-			hdr("Accept", "application/json", "accept"),
+			func(r *c12Req) string {
+				c12SetHeader(r, "Accept", "application/json")
+				if r.kind == "stateless-modern-json" {
+					r.lenient = true // its answer to a call is application/json
+					return ""
+				}
+				return "accept"
+			},
 			hdr("Accept", "text/event-stream", "accept"),
 			hdr("Accept", "text/html", "accept"),
 			hdr("Accept", "", "accept"),
@@ -584,7 +595,7 @@ func c12Setup(kind string) (*c12Endpoint, error) {
 	})
 	s.AddReceivingMiddleware(func(next MethodHandler) MethodHandler {
 		return func(ctx context.Context, method string, req Request) (Result, error) {
-			if method == "tools/call" || method == "notifications/progress" {
+			if method == "tools/call" || method == "notifications/progress" || method == "subscriptions/listen" {
 				dispatched++
 			}
 			return next(ctx, method, req)
@@ -601,6 +612,26 @@ func c12Setup(kind string) (*c12Endpoint, error) {
 					{"Mcp-Protocol-Version", "2026-07-28"}, {"Mcp-Method", "tools/call"}, {"Mcp-Name", "t"},
 					{"Mcp-Param-P", "val"}, {"Mcp-Param-Q", "7"}, {"Mcp-Param-R", "true"}},
 				body: `{"jsonrpc":"2.0","id":1,"method":"tools/call","params":{"name":"t","arguments":` + args + `,"_meta":{"io.modelcontextprotocol/protocolVersion":"2026-07-28","io.modelcontextprotocol/clientCapabilities":{}}}}`}
+		}
+	case "stateless-modern-json":
+		// the same endpoint configured to answer calls with application/json bodies
+		e.handler = NewStreamableHTTPHandler(func(*http.Request) *Server { return s }, &StreamableHTTPOptions{Stateless: true, JSONResponse: true, Logger: quietLogger, MaxRequestBodyBytes: c12BodyLimit})
+		e.base = func() *c12Req {
+			return &c12Req{kind: kind, method: "POST", target: "/mcp", host: "localhost:80", localAddr: "127.0.0.1:80",
+				headers: [][2]string{{"Content-Type", "application/json"}, {"Accept", "application/json, text/event-stream"},
+					{"Mcp-Protocol-Version", "2026-07-28"}, {"Mcp-Method", "tools/call"}, {"Mcp-Name", "t"},
+					{"Mcp-Param-P", "val"}, {"Mcp-Param-Q", "7"}, {"Mcp-Param-R", "true"}},
+				body: `{"jsonrpc":"2.0","id":1,"method":"tools/call","params":{"name":"t","arguments":` + args + `,"_meta":{"io.modelcontextprotocol/protocolVersion":"2026-07-28","io.modelcontextprotocol/clientCapabilities":{}}}}`}
+		}
+	case "stateless-modern-listen", "stateless-modern-json-listen":
+		// subscriptions/listen: a call that is always answered with an event stream, whatever the
+		// handler's JSONResponse setting says about ordinary calls
+		e.handler = NewStreamableHTTPHandler(func(*http.Request) *Server { return s }, &StreamableHTTPOptions{Stateless: true, JSONResponse: strings.Contains(kind, "json"), Logger: quietLogger, MaxRequestBodyBytes: c12BodyLimit})
+		e.base = func() *c12Req {
+			return &c12Req{kind: kind, method: "POST", target: "/mcp", host: "localhost:80", localAddr: "127.0.0.1:80",
+				headers: [][2]string{{"Content-Type", "application/json"}, {"Accept", "application/json, text/event-stream"},
+					{"Mcp-Protocol-Version", "2026-07-28"}, {"Mcp-Method", "subscriptions/listen"}},
+				body: `{"jsonrpc":"2.0","id":1,"method":"subscriptions/listen","params":{"notifications":{"toolsListChanged":true},"_meta":{"io.modelcontextprotocol/protocolVersion":"2026-07-28","io.modelcontextprotocol/clientCapabilities":{}}}}`}
 		}
 	case "stateless-modern-notification":
 		// the same endpoint receiving a notification: its Mcp-Method header is checked like a call's
@@ -728,12 +759,21 @@ func c12Send(e *c12Endpoint, r *c12Req) (status int, body string, err error) {
 		return 0, "", err
 	}
 	addr, _ := net.ResolveTCPAddr("tcp", r.localAddr)
-	req = req.WithContext(context.WithValue(context.Background(), http.LocalAddrContextKey, net.Addr(addr)))
+	rctx, cancel := context.WithCancel(context.WithValue(context.Background(), http.LocalAddrContextKey, net.Addr(addr)))
+	defer cancel()
+	req = req.WithContext(rctx)
 	w := httptest.NewRecorder()
 	done := make(chan struct{})
 	go func() { defer close(done); e.handler.ServeHTTP(w, req) }()
 	synctest.Wait()
-	<-done
+	select {
+	case <-done:
+	default:
+		// a response that stays open (subscriptions/listen): it has been accepted and is being served;
+		// hang up
+		cancel()
+		<-done
+	}
 	return w.Code, w.Body.String(), nil
 }
 
@@ -780,6 +820,9 @@ func c12SoundnessCase(kind string, devs [][2]int) (obs, sig, msg string) {
 		}
 		return kind + " accepted", "", ""
 	}
+	if len(r.violated) == 0 && r.lenient && dispatched == 0 && status >= 400 && status < 500 {
+		return kind + " refused (either way is fine)", "", ""
+	}
 	if len(r.violated) == 0 {
 		if dispatched != 1 || status >= 400 {
 			return "", "c12 soundness valid-request-rejected " + kind + " " + strings.Join(names, "+"), fmt.Sprintf("every precondition holds but status=%d dispatched=%d body=%.200q [%s]", status, dispatched, body, desc)
@@ -793,7 +836,7 @@ func c12SoundnessCase(kind string, devs [][2]int) (obs, sig, msg string) {
 		return "", "c12 soundness wrong-status-for-" + strings.Join(r.violated, "+") + " " + kind, fmt.Sprintf("violated %v: status %d, want a 4xx [%s]", r.violated, status, desc)
 	}
 	// mandated answers where exactly one precondition is violated
-	if len(r.violated) == 1 {
+	if len(r.violated) == 1 && !r.lenient { // (a lenient request may legitimately have been refused for its Accept first)
 		want := map[string]int{"host": 403, "content-type": 415, "body-size": 413}[r.violated[0]]
 		if want != 0 && status != want {
 			return "", fmt.Sprintf("c12 soundness status-%d-for-%s %s", status, r.violated[0], kind), fmt.Sprintf("violated %s: status %d, mandated %d [%s]", r.violated[0], status, want, desc)
@@ -810,7 +853,7 @@ func TestVerifC12(t *testing.T) {
 	res := env.NewResult()
 	sound := env.NewCases(res, "soundness-deviations")
 	dims := c12Dims()
-	for _, kind := range []string{"stateless-modern", "stateless-modern-notification", "stateful-legacy", "stateful-no-session-ids", "sse"} {
+	for _, kind := range []string{"stateless-modern", "stateless-modern-notification", "stateful-legacy", "stateful-no-session-ids", "sse", "stateless-modern-json", "stateless-modern-listen", "stateless-modern-json-listen"} {
 		type dv = [2]int
 		var singles []dv
 		for di, d := range dims {
